@@ -2,6 +2,7 @@
   CbRef — abstract syntax of the sequential core fragment of Cb (the fragment the properties
   C01, C03, C04, C08, C09 quantify over).  Core Lean only.
 -/
+import CbModel.Render
 namespace CbModel.Ref
 
 inductive Base where
@@ -39,6 +40,7 @@ inductive Expr where
 inductive PItem where
   | str (s : String)
   | expr (e : Expr)
+  | exprF (e : Expr) (sp : CbModel.Render.ISpec)     -- {e:x} {e:05d} … (interpolation only)
   deriving Repr, Inhabited
 
 inductive Stmt where
@@ -50,6 +52,8 @@ inductive Stmt where
   | expr (e : Expr)
   | print (items : List PItem)                 -- println(a, b, "s")
   | printI (parts : List PItem)                -- println("text {e} text")
+  | printF (fmt : String) (args : List PItem)  -- println("fmt %d %s", a, "s")
+  | printRaw (items : List PItem)              -- print(a, b): no newline
   | ifS (c : Expr) (t : List Stmt) (e : Option (List Stmt))
   | whileS (c : Expr) (body : List Stmt)
   | forS (init : Option Stmt) (c : Expr) (upd : Option Stmt) (body : List Stmt)
